@@ -230,6 +230,15 @@ def _parse_iso8601_interval(text: str) -> _Interval:
         start = parse_iso8601(first)
         end = parse_iso8601(last)
 
+    if duration is not None:
+        # A duration can only be applied to a date and time
+        valid = isinstance(duration, Duration) and isinstance(start or end, datetime)
+    else:
+        valid = isinstance(start, date) and isinstance(end, date)
+
+    if not valid:
+        raise ParserError("Invalid interval")
+
     return _Interval(
         cast(datetime, start), cast(datetime, end), cast(Duration, duration)
     )
